@@ -34,7 +34,8 @@
 //   - config "oraclefns": {"f": {"params": [..], "result": "uint8"}}: a package-level function that is not translated:
 //     the translated caller takes a parameter o_f : params -> option result (None = the call panics).
 //   - config "exttables": {"tbl.field": "coqlist:width"}: tbl[i].field for a package-level table of structs whose column
-//     `field` is the regenerated constant list `coqlist` (bounds-checked: out of range is GPanic).
+//     `field` is the regenerated constant list `coqlist` (bounds-checked: out of range is GPanic); "tbl": "coqlist:8" for a
+//     package-level byte array read as tbl[i]; "tbl.len": "coqname:s64" for len(tbl).
 //   - array literals [n]byte{a, ..} with fewer than n elements are padded with zeros (gpad); var p *T is nil.
 //   - labelled loops: `continue L` where L labels an enclosing for statement (rewritten on the syntax tree with a flag);
 //   - a loop condition `a && b` / `a || b` whose right operand reads an element or goes through a pointer moves into the
@@ -369,6 +370,16 @@ func (tr *translator) poolExpr(e ast.Expr, en *env) (string, tinfo, bool) {
 		if ti, ok := en.vars[t.Name]; ok && ti.width == -33 {
 			fail("%s: %s, fresh from new(%s), is used before it is appended to the pool", tr.fn.Name, t.Name, ti.named)
 		}
+		if c, ok := cfg.ExtTables[t.Name]; ok {
+			// a package-level byte array / slice that is a regenerated constant list (config "exttables": "name": "coqlist:8")
+			if _, isVar := en.vars[t.Name]; !isVar {
+				coq, w := splitNameWidth(c)
+				if w != 8 {
+					fail("%s: table %s must be a byte table", tr.fn.Name, t.Name)
+				}
+				return coq, tinfo{width: -4, array: true}, true
+			}
+		}
 	case *ast.SelectorExpr:
 		if id, ok := t.X.(*ast.Ident); ok {
 			if ti, ok := en.vars[id.Name]; ok && ti.width == -33 {
@@ -454,6 +465,17 @@ func (tr *translator) poolExpr(e ast.Expr, en *env) (string, tinfo, bool) {
 			}
 		}
 	case *ast.CallExpr:
+		if id, ok := t.Fun.(*ast.Ident); ok && id.Name == "len" && len(t.Args) == 1 {
+			// len(tbl) of a package-level table whose length is a regenerated constant (config "exttables": "tbl.len": "coqname:s64")
+			if aid, ok := t.Args[0].(*ast.Ident); ok {
+				if _, isVar := en.vars[aid.Name]; !isVar {
+					if c, ok := cfg.ExtTables[aid.Name+".len"]; ok {
+						coq, _ := splitNameWidth(c)
+						return coq, tinfo{width: 64, signed: true}, true
+					}
+				}
+			}
+		}
 		if spec, ok := tr.recvMethod(t); ok {
 			saved := tr.hoistedCall
 			c0 := poolImpureCount
